@@ -481,10 +481,19 @@ def run(ctx):
     run_c06d(ctx)
     rule_e(ctx, R)
     rule_f(ctx, R, sector, scan_site)
+    rule_g(ctx)
     if ctx.cfg == "default":
         from ..fixtures import detectors_alive
         ctx.rule("C06-z", "positive example: a panic guarded by a coordinate's value is found in fixtures/")
         detectors_alive(ctx, "C06-z", {"value-panic"})
+
+
+def rule_g(ctx):
+    """`index order` in the statement is the caller's: the graph the table is built from lists the caller's edges unpermuted."""
+    from .kernels import graph_dod_clause, restated_clause
+    ctx.rule("C06-g", "[restated from C03-a] the edges the scan enumerates in index order are the caller's edges in the caller's order: from_graph stores "
+                      "edge e of the input as topology[e] (id, endpoints, weight, mass flag), with dod and L of the whole graph as stated")
+    restated_clause(ctx, "C06-g", "preprocessing::TropicalGraph::from_graph", "graph-dod", lambda: graph_dod_clause(ctx, "C06-g", topology=True))
 
 
 def rule_e(ctx, R):
